@@ -153,10 +153,16 @@ Definition socks_of (items : list uitem) : list usock :=
   flat_map (fun i => match i with USock u => [u] | UJunk _ => [] end) items.
 
 Definition path_of (u : usock) : bytes := match u_path u with Some p => p | None => [] end.
-(* a path can be carried by the one-line-per-socket format: no line terminator inside *)
+(* the printed name: any bytes except NUL (unix_seq_show prints '@' for a NUL) and LF.  The kernel prints an LF
+   of a bound name raw, so such a name splits its record in two lines: the one-line-per-socket format cannot
+   carry it -- that class is excluded here (see C11_unix_name_with_lf_splits for what then happens) *)
 Definition wf_usock (u : usock) : bool :=
   tok_ok (u_num u) && tok_ok (u_ref u) && tok_ok (u_proto u) && tok_ok (u_flags u) && tok_ok (u_st u)
-  && is_dec (u_inode u) && negb (contains 10 (path_of u)).
+  && is_dec (u_inode u) && negb (contains 10 (path_of u)) && negb (contains 0 (path_of u)).
+(* the fixed-format part of a record: everything before the name *)
+Definition uline_head (u : usock) : bytes :=
+  k_seq (u_pad u) 0 [u_num u; u_ref u; u_proto u; u_flags u; hexw 4 (utype_num (u_type u)); u_st u]
+        (u_inode u ++ match u_path u with None => [10] | Some _ => [32] end).
 Definition uitem_ok (i : uitem) : bool :=
   match i with USock u => wf_usock u | UJunk j => junk_ok j end.
 (* class excluded from the main theorem (finding): the bound name starts with white space *)
@@ -224,10 +230,19 @@ Definition k_files (le : bool) (st : kstate) (name : bytes) : option bytes :=
   else if beqb name (bs "udp6") then option_map (k_ifile le hdr_udp6) (k_udp6 st)
   else if beqb name (bs "unix") then Some (k_ufile (k_unix st))
   else None.
-(* the printed files hold no character that only text-mode reading treats as white space / newline *)
+(* the printed tcp/udp files hold no character that only text-mode reading treats as white space / newline, and
+   neither does the fixed-format part of the unix records (the kernel prints hex digits, digits, blanks and ':'
+   there); the socket NAMES are not constrained: CR, \x1c-\x1f, Unicode blanks ... are allowed in them *)
+Definition unix_heads_safe (st : kstate) : bool := forallb (fun u => str_safe (uline_head u)) (k_unix st).
 Definition files_text_safe (le : bool) (st : kstate) : bool :=
   forallb (fun n => match k_files le st n with Some c => text_safe c | None => true end)
-          [bs "tcp"; bs "tcp6"; bs "udp"; bs "udp6"; bs "unix"].
+          [bs "tcp"; bs "tcp6"; bs "udp"; bs "udp6"]
+  && unix_heads_safe st.
+(* what an older variant of the code needs of the unix file in addition: its own line guard, and no CR at all
+   while the file was read with universal newlines *)
+Definition unix_guard (v : variant) (st : kstate) : bool :=
+  forallb (fun u => line_guard v (k_uline u)) (k_unix st)
+  && (v_lf v || negb (contains 13 (k_ufile (k_unix st)))).
 
 (* ------------------------------------------------------------ the demanded answer *)
 (* kind -> does it cover (family, type)?  The documented table:
